@@ -390,7 +390,8 @@ def layout(repo, run):
         if isinstance(a, ast.Name) and a.id in env:
             a = env[a.id]
         if isinstance(a, ast.Tuple):
-            el = [src(e) for e in a.elts]
+            from ..extract import _subst
+            el = [src(_subst(e, env)) for e in a.elts]          # `y_shape = D.ar_numpy.shape(y)` computed once is the same shape
             if len(el) == 2 and el[0].startswith("*D.ar_numpy.shape(") and el[1] == "*D.ar_numpy.shape(%s)" % yname and el[0] != el[1]:
                 okr = True
     run.judged(rid, "result reshaped to (*output shape, *input shape)", ok=okr)
